@@ -38,6 +38,9 @@ func (r *Rule) ok(construct, pos, detail string) {
 	r.Instances = append(r.Instances, Instance{Construct: construct, Pos: pos, Status: "ok", Detail: detail})
 }
 func (r *Rule) bad(construct, pos, detail string, witness interface{}) {
+	if len(detail) > 1500 {
+		detail = detail[:1500] + "... (clipped)"
+	}
 	r.Instances = append(r.Instances, Instance{Construct: construct, Pos: pos, Status: "violated", Detail: detail, Witness: witness})
 }
 func (r *Rule) undecided(construct, pos, detail string) {
